@@ -200,7 +200,12 @@ func iccSeeds() []hseed {
 	ud = append(ud, make([]byte, 2+1+67)...)
 	v2u := gen.BuildICC(func() []byte { h := gen.ICCHeader(0); h[8], h[9] = 2, 0x40; return h }(),
 		[]gen.ICCTag{{"desc", 0}, {"cprt", 1}}, []gen.ICCBlock{{Data: ud}, {Data: gen.Payload(24, 1, true)}}, nil, nil)
+	// a description stored as a plain 'text' element (some v2 writers do that)
+	td := append([]byte{'t', 'e', 'x', 't', 0, 0, 0, 0}, []byte("A description in a text element\x00")...)
+	v2t := gen.BuildICC(func() []byte { h := gen.ICCHeader(0); h[8], h[9] = 2, 0x40; return h }(),
+		[]gen.ICCTag{{"desc", 0}, {"cprt", 1}}, []gen.ICCBlock{{Data: td}, {Data: gen.Payload(24, 1, true)}}, nil, nil)
 	return []hseed{{"icc-v2", "icc", v2, walkICC(v2)}, {"icc-v4", "icc", v4, walkICC(v4)},
+		{"icc-v2-desc-as-text-element", "icc", v2t, walkICC(v2t)},
 		{"icc-v2-unicode-only", "icc", v2u, walkICC(v2u)}, {"icc-v2-unicode-to-end", "icc", v2e, walkICC(v2e)},
 		{"icc-many-shared-tags", "icc", many, map[string][]fpos{"profile_size": {{0, 4, false}}}},
 		{"icc-long-v2-description", "icc", longV2, map[string][]fpos{"profile_size": {{0, 4, false}}}},
